@@ -162,10 +162,10 @@ CHECKS = {
 
 # Additions made after the blind seeding round (appended to the claim texts above).
 EXTRA = {
- "C01": " cmdExec returns normally only if the outcome of the child matches the polarity: a failed start of a background command or a failed foreground run reaches the caller unless negated, and a negated foreground exec must have failed. RunMain's wrapper exits with exactly the status the command function returned; a [go1.N] condition holds exactly when slices.Contains finds it among the toolchain's release tags. A command name found in the built-in table always gets the built-in (Params.Cmds cannot shadow it); the verdict of `wait name` (waitBackgroundOne, outside the modelled subset) is checked by a BOUNDED stand-in (true/false commands, both polarities, with neighbours). For grep the text searched is the content of the file named by its argument (through MkAbs and os.ReadFile).",
+ "C01": " cmdExec returns normally only if the outcome of the child matches the polarity: a failed start of a background command or a failed foreground run reaches the caller unless negated, and a negated foreground exec must have failed. RunMain's wrapper exits with exactly the status the command function returned; a [go1.N] condition holds exactly when slices.Contains finds it among the toolchain's release tags. A command name found in the built-in table always gets the built-in (Params.Cmds cannot shadow it); the verdict of `wait name` (waitBackgroundOne, outside the modelled subset) is checked by a BOUNDED stand-in (true/false commands, both polarities, with neighbours). For grep the text searched is the content of the file named by its argument (through MkAbs and os.ReadFile). skip checks the status of background commands through wait before skipping; an error returned by a condition always fails the line (no normal return of runLine after one).",
  "C02": " env NAME=VALUE (cmdEnv): the name is the text before the first '=', the value the text after it, stored as given (no second expansion). run hands every script line to runLine whole (from the start of the line to the byte before its newline or the end of the script) and runLine hands it to parse unchanged.",
  "C03": " Parse hands its whole input to the first marker scan (nothing is stripped first).",
- "C04": " RunT's per-script closure is handed to t.Run under the very name that was checked for distinctness; cmdExec's start/run errors reach the caller (not swallowed); the wait-for-one-background-command path (waitBackgroundOne) is covered by a BOUNDED stand-in only (pointers into slice elements are outside the modelled subset). On entering the script loop RunT's clean-up counter equals the number of scripts. The shared context is cancelled only by the last script to finish (and never when work directories are retained).",
+ "C04": " RunT's per-script closure is handed to t.Run under the very name that was checked for distinctness; cmdExec's start/run errors reach the caller (not swallowed); the wait-for-one-background-command path (waitBackgroundOne) is covered by a BOUNDED stand-in only (pointers into slice elements are outside the modelled subset). On entering the script loop RunT's clean-up counter equals the number of scripts. The shared context is cancelled only by the last script to finish (and never when work directories are retained). unix2dos (like unquote and mv) reads and writes only through MkAbs-resolved paths; these file commands are part of this check's set.",
  "C05": " copyFile returns nil only when the output file exists under its name. putIndexEntry returns nil only after the entry file was opened and the entry text written; Put, PutNoVerify and PutBytes hand their arguments to put unchanged (PutBytes stores exactly the given bytes). No lookup calls a method on a nil FileInfo (method calls on interface values obtained from a call are safety obligations).",
  "C06": " Mutex.Lock opens and locks the file at mu.Path itself. Read, Write and Transform leave no lock behind: the descriptor they opened is unlocked and closed on every return.",
  "C07": " openFile with O_TRUNC returns a nil error for a regular file only after truncating it to length 0 (a failed truncation is ignored only for non-regular files).",
@@ -175,9 +175,9 @@ EXTRA = {
  "C12": " put itself never removes or truncates a file; copyFile never reopens for writing an existing output whose size and hash already match, passes O_TRUNC only when the existing file is longer than the new content, and truncates only to zero. The lookup side (GetFile's size gate, GetBytes' checksum gate, get's record layout) is part of this check's set.",
  "C13": " GetBytes reads the data file only after its mtime was refreshed (younger than one hour before the call, when no file operation fails), like GetFile. A due Trim makes exactly 256 trimSubdir passes, the i-th on Join(dir, Sprintf(\"%02x\", i)). trimSubdir asks for the whole directory listing (Readdirnames with n <= 0), and the 256 passes happen whenever the last-trim record is not recent, whatever else Trim returns.",
  "C14": " What txtar-c hands to NeedsQuote is the file's bytes as read, changed at most by one added final newline. isMarker, findFileMarker and fixNL (through which NeedsQuote's contract is discharged) are part of this check's set.",
- "C15": " cmd/txtar-x's main extracts the freshly parsed archive with txtar.Write into the directory given by -C and ends with exit status 1 exactly when Write failed; cmd/txtar-c's main walks from the cleaned directory argument, so entry names are relative to it. For the round-trip clause, the quoting functions (NeedsQuote, Quote, lemma quotedSafe), the marker scanner and Parse, with both txtar stand-ins (BOUNDED), are part of this check's set. Write returns its outside-parent error only for a name that is absolute or climbs out (in-bounds names such as ..data are not refused). A quoted file is announced in the comment under the same name its entry gets.",
- "C16": " run (which must hold applyScriptUpdates on the defer stack before any line runs or fails) is part of this check's set.",
- "C18": " scanFiles (the caller that feeds files to ReadImports) is in this check's set: it reads imports without syntax-error reporting and only from the opened file. readKeyword: without error the byte after the keyword is peeked and is not an identifier byte; the stand-in also checks every generated file with CRLF line ends; ScanFiles hands its arguments to scanFiles unchanged. The reader records only its two sentinels or errors of the underlying reader, and ReadImports never returns the syntax sentinel when syntax errors are not requested.",
+ "C15": " cmd/txtar-x's main extracts the freshly parsed archive with txtar.Write into the directory given by -C and ends with exit status 1 exactly when Write failed; cmd/txtar-c's main walks from the cleaned directory argument, so entry names are relative to it. For the round-trip clause, the quoting functions (NeedsQuote, Quote, lemma quotedSafe), the marker scanner and Parse, with both txtar stand-ins (BOUNDED), are part of this check's set. Write returns its outside-parent error only for a name that is absolute or climbs out (in-bounds names such as ..data are not refused). A quoted file is announced in the comment under the same name its entry gets. txtar-c's walk callback never skips the root directory it was given.",
+ "C16": " run (which must hold applyScriptUpdates on the defer stack before any line runs or fails) is part of this check's set. cmp reads its second operand from the file MkAbs names (never the stdout/stderr buffers).",
+ "C18": " scanFiles (the caller that feeds files to ReadImports) is in this check's set: it reads imports without syntax-error reporting and only from the opened file. readKeyword: without error the byte after the keyword is peeked and is not an identifier byte; the stand-in also checks every generated file with CRLF line ends; ScanFiles hands its arguments to scanFiles unchanged. The reader records only its two sentinels or errors of the underlying reader, and ReadImports never returns the syntax sentinel when syntax errors are not requested. The // comment loop of peekByte terminates (decreases clause over remaining input, end of input and error); readKeyword skips white space before the keyword only, never between its bytes.",
  "C19": " scanFiles evaluates ShouldBuild on exactly the bytes it read and with the caller's tag map (unless the files were named explicitly).",
  "C20": " par.Cache's Do and Get (C10's rely-guarantee contracts) are part of this check's set; isPseudoVersion is compared with golang.org/x/mod/module.IsPseudoVersion by a BOUNDED stand-in over composed version strings (no build metadata other than +incompatible). readArchive looks an archive up under <dir>/<escaped path with / as _>_<escaped version> (.txtar and .txt appended for the file forms), uses that base name as cache key, and its cache closure always returns a typed value. The archive closure returns a non-nil archive only when one of the three loading steps succeeded.",
 }
